@@ -104,7 +104,7 @@ func (t *Target) AccessDeniedTCP(c net.Conn) bool {
 	// is closed to the TCP proxies. Otherwise a tcp+sni listener, which looks
 	// the server name up in the whole routing table, tunnels clients to the
 	// upstream of a password protected https route.
-	if t.AuthScheme != "" {
+	if t.AuthScheme != "" || t.authRequired {
 		log.Printf("[WARN] route for %s requires auth scheme '%s' which a TCP connection cannot satisfy", t.Service, t.AuthScheme)
 		return true
 	}
